@@ -457,6 +457,14 @@ func VerifC18KeyPositions() {
 		{"pfmerge", []string{"K", "K", "K"}}, {"bitop", []string{"AND", "K", "K", "K"}},
 		{"mset", []string{"K", "v", "K", "v"}}, {"msetnx", []string{"K", "v", "K", "v"}},
 		{"del", []string{"K", "K", "K"}}, {"unlink", []string{"K", "K"}},
+		// keys located by options or counts
+		{"sort", []string{"K", "STORE", "K"}}, {"sort", []string{"K", "LIMIT", "0", "5", "STORE", "K"}},
+		// a repeated STORE clause: the last one is the destination (the first one's argument is in the unit's slot here)
+		{"sort", []string{"K", "STORE", "{a}tmp", "STORE", "K"}},
+		{"zunionstore", []string{"K", "2", "K", "K"}}, {"zinterstore", []string{"K", "2", "K", "K", "WEIGHTS", "1", "2"}},
+		{"zdiffstore", []string{"K", "2", "K", "K"}},
+		{"georadius", []string{"K", "1", "2", "3", "km", "STORE", "K"}},
+		{"lmpop", []string{"2", "K", "K", "LEFT"}}, {"eval", []string{"return 1", "2", "K", "K", "arg"}},
 	}
 	r := refs[verifChoose("cmd", len(refs))]
 	var kpos []int
